@@ -7,9 +7,25 @@ open RpmVerif RpmVerif.FileCaps.Spec
 
 /-! ## character classes -/
 
+theorem isUniSpace_iff (c : Nat) : isUniSpace c = true ↔
+    (c = 0x85 ∨ c = 0xA0 ∨ c = 0x1680 ∨ (0x2000 ≤ c ∧ c ≤ 0x200A) ∨ c = 0x2028 ∨ c = 0x2029 ∨ c = 0x202F ∨
+      c = 0x205F ∨ c = 0x3000) := by
+  simp only [isUniSpace, List.contains_iff_mem, List.mem_cons, List.not_mem_nil, or_false]
+  omega
+
+/-- the spec's most generous notion of whitespace (listed code points) is the model's
+`char::is_whitespace` (ranges): both are the `White_Space` property -/
 theorem isSpace_eq_isWs (c : Nat) : isSpace c = isWs c := by
   rw [Bool.eq_iff_iff]
-  simp only [isSpace, isWs, Bool.or_eq_true, Bool.and_eq_true, beq_iff_eq, decide_eq_true_eq]
+  simp only [isSpace, isSureSpace, isDoubtfulSpace, isUniSpace_iff, isWs, Bool.or_eq_true, Bool.and_eq_true, beq_iff_eq,
+    decide_eq_true_eq]
+  omega
+
+theorem isUniSpace_ge {c : Nat} (h : isUniSpace c = true) : 128 ≤ c := by
+  rw [isUniSpace_iff] at h; omega
+
+theorem isSpace_ascii {c : Nat} (h : isSpace c = true) (hd : isDoubtfulSpace c = false) : c < 128 := by
+  simp only [isSpace, hd, Bool.or_false, isSureSpace, Bool.or_eq_true, beq_iff_eq] at h
   omega
 
 theorem isSpace_fun : isSpace = isWs := funext isSpace_eq_isWs
@@ -301,12 +317,12 @@ theorem table_no_op {t : Str} (ht : t ∈ Gen.capsTable) {a : Nat} (ha : a ∈ t
   simp only [Bool.and_eq_true, Bool.not_eq_true'] at this
   exact this.2
 
-theorem toUpper_eq_iff {a b : Nat} (ha : ¬(97 ≤ a ∧ a ≤ 122)) :
-    toUpper b = a ↔ (b = a ∨ (65 ≤ a ∧ a ≤ 90 ∧ b = a + 32)) := by
-  unfold toUpper; split <;> omega
+theorem toAsciiUpper_eq_iff {a b : Nat} (ha : ¬(97 ≤ a ∧ a ≤ 122)) :
+    toAsciiUpper b = a ↔ (b = a ∨ (65 ≤ a ∧ a ≤ 90 ∧ b = a + 32)) := by
+  unfold toAsciiUpper; split <;> omega
 
 theorem sameName_iff (t : Str) (ht : ∀ a ∈ t, ¬(97 ≤ a ∧ a ≤ 122)) :
-    ∀ n : Str, sameName t n = true ↔ n.map toUpper = t := by
+    ∀ n : Str, sameName t n = true ↔ n.map toAsciiUpper = t := by
   induction t with
   | nil => intro n; cases n <;> simp [sameName]
   | cons a t ih =>
@@ -314,12 +330,12 @@ theorem sameName_iff (t : Str) (ht : ∀ a ∈ t, ¬(97 ≤ a ∧ a ≤ 122)) :
     cases n with
     | nil => simp [sameName]
     | cons b n =>
-      have h1 := toUpper_eq_iff (b := b) (ht a (List.mem_cons_self ..))
+      have h1 := toAsciiUpper_eq_iff (b := b) (ht a (List.mem_cons_self ..))
       have h2 := ih (fun x hx => ht x (List.mem_cons_of_mem _ hx)) n
       simp only [sameName, Bool.and_eq_true, Bool.or_eq_true, beq_iff_eq, decide_eq_true_eq, List.map_cons,
         List.cons.injEq, h1, h2, and_assoc]
 
-theorem known_eq_contains (p : Str) : Gen.capsTable.contains (p.map toUpper) = known p := by
+theorem known_eq_contains (p : Str) : Gen.capsTable.contains (p.map toAsciiUpper) = known p := by
   rw [Bool.eq_iff_iff, List.contains_iff_mem, known, List.any_eq_true]
   constructor
   · intro h
@@ -398,16 +414,16 @@ theorem fields_all_chars (p q : Nat → Bool) (hpq : ∀ c, p c = true → q c =
         simp only [consHead, List.cons_append, List.nil_append, List.all_cons, Bool.and_eq_true] at h ih
         simp [h.1.1, ih ⟨h.1.2, h.2⟩]
 
-theorem isOp_toUpper {a : Nat} (h : isOp a = true) : toUpper a = a := by
-  rw [isOp_iff] at h; unfold toUpper; split <;> omega
+theorem isOp_toAsciiUpper {a : Nat} (h : isOp a = true) : toAsciiUpper a = a := by
+  rw [isOp_iff] at h; unfold toAsciiUpper; split <;> omega
 
 theorem known_no_op {x : Str} (h : known x = true) : x.all (fun c => !isOp c) = true := by
   rw [← known_eq_contains, List.contains_iff_mem] at h
   rw [List.all_eq_true]; intro a ha
   cases hop : isOp a
   · rfl
-  · have hm : toUpper a ∈ x.map toUpper := List.mem_map_of_mem ha
-    rw [isOp_toUpper hop] at hm
+  · have hm : toAsciiUpper a ∈ x.map toAsciiUpper := List.mem_map_of_mem ha
+    rw [isOp_toAsciiUpper hop] at hm
     rw [table_no_op h hm] at hop; cases hop
 
 theorem isAll_no_op {x : Str} (h : isAll x = true) : x.all (fun c => !isOp c) = true := by
@@ -747,5 +763,205 @@ theorem clause_gap {c : Str} (hl : clause lenient c = true) (hs : clause strict 
           rw [this, hfa] at hn
           cases hn.1
         | cons g2 gs2 => simp
+
+/-! ## non-ASCII code points: a clause of the grammar is ASCII, under every reading -/
+
+theorem table_ascii : Gen.capsTable.all (fun t => t.all (fun a => decide (a < 128))) = true := by
+  decide
+
+theorem toAsciiUpper_lt {a : Nat} (h : toAsciiUpper a < 128) : a < 128 := by
+  unfold toAsciiUpper at h; split at h <;> omega
+
+theorem known_ascii {x : Str} (h : known x = true) : x.all (fun a => decide (a < 128)) = true := by
+  rw [← known_eq_contains, List.contains_iff_mem] at h
+  rw [List.all_eq_true]; intro a ha
+  have hm : toAsciiUpper a ∈ x.map toAsciiUpper := List.mem_map_of_mem ha
+  have := List.all_eq_true.mp (List.all_eq_true.mp table_ascii _ h) _ hm
+  simp only [decide_eq_true_eq] at this ⊢
+  exact toAsciiUpper_lt this
+
+theorem isAll_ascii {x : Str} (h : isAll x = true) : x.all (fun a => decide (a < 128)) = true := by
+  match x, h with
+  | [a, b, c], h =>
+    simp only [isAll, Bool.and_eq_true, Bool.or_eq_true, beq_iff_eq] at h
+    simp only [List.all_cons, List.all_nil, Bool.and_true, Bool.and_eq_true, decide_eq_true_eq]
+    omega
+
+theorem nameList_ascii {rd : Reading} {n : Str} (h : nameList rd n = true) :
+    n.all (fun a => decide (a < 128)) = true := by
+  unfold nameList at h
+  rw [Bool.or_eq_true] at h
+  rcases h with h | h
+  · exact isAll_ascii h
+  · apply fields_all_chars (· == 44) _ _ n
+    · rw [List.all_eq_true] at h ⊢
+      intro f hf
+      have := h f hf
+      rw [Bool.or_eq_true, Bool.and_eq_true] at this
+      rcases this with hk | ⟨_, ha⟩
+      · exact known_ascii hk
+      · exact isAll_ascii ha
+    · intro c hc
+      have : c = 44 := by simpa using hc
+      subst this; rfl
+
+theorem isOp_ascii {a : Nat} (h : isOp a = true) : a < 128 := by rw [isOp_iff] at h; omega
+theorem isFlag_ascii {a : Nat} (h : isFlag a = true) : a < 128 := by rw [isFlag_iff] at h; omega
+
+theorem groups_ascii (rd : Reading) (s : Str) : ∀ st, groups rd st s = true → ∀ a ∈ s, a < 128 := by
+  induction s with
+  | nil => intro _ _ a ha; cases ha
+  | cons c r ih =>
+    intro st h a ha
+    have key : c < 128 ∧ ∃ st', groups rd st' r = true := by
+      cases st with
+      | none =>
+        simp only [groups, Bool.and_eq_true] at h
+        exact ⟨isOp_ascii h.1, _, h.2⟩
+      | some n =>
+        simp only [groups] at h
+        split at h
+        · next hf => exact ⟨isFlag_ascii hf, _, h⟩
+        · simp only [Bool.and_eq_true] at h
+          exact ⟨isOp_ascii h.1.1, _, h.2⟩
+    rcases List.mem_cons.mp ha with rfl | har
+    · exact key.1
+    · obtain ⟨st', hst⟩ := key.2
+      exact ih st' hst a har
+
+/-- every character of a clause of the grammar is ASCII, whichever reading is taken -/
+theorem clause_ascii {rd : Reading} {c : Str} (h : clause rd c = true) : ∀ a ∈ c, a < 128 := by
+  obtain ⟨k, hk, hat⟩ := (clause_iff rd c).mp h
+  rw [clauseAt, Bool.and_eq_true] at hat
+  intro a ha
+  rw [← List.take_append_drop k c, List.mem_append] at ha
+  rcases ha with ha | ha
+  · by_cases hk0 : k = 0
+    · simp [hk0] at ha
+    · have h2 := hat.2
+      simp only [hk0, if_false] at h2
+      simpa using List.all_eq_true.mp (nameList_ascii h2) a ha
+  · exact groups_ascii rd _ none hat.1 a ha
+
+/-- a code point that is not whitespace (under the most generous reading) lies in one of the words -/
+theorem mem_words_of_mem {s : Str} {x : Nat} (hx : x ∈ s) (hs : isSpace x = false) : ∃ c ∈ words s, x ∈ c := by
+  induction s with
+  | nil => cases hx
+  | cons a r ih =>
+    by_cases ha : isSpace a = true
+    · rw [words_cons_ws r ha]
+      rcases List.mem_cons.mp hx with rfl | hr
+      · rw [hs] at ha; cases ha
+      · exact ih hr
+    · have ha' : isSpace a = false := by simpa using ha
+      cases hf : fields isSpace r with
+      | nil => exact absurd hf (fields_ne_nil _ _)
+      | cons f fs =>
+        have hw : words (a :: r) = (a :: f) :: fs.filter (fun w => !w.isEmpty) := by
+          simp [words, fields, ha', hf, consHead]
+        rw [hw]
+        rcases List.mem_cons.mp hx with rfl | hr
+        · exact ⟨x :: f, List.mem_cons_self .., List.mem_cons_self ..⟩
+        · obtain ⟨c, hc, hxc⟩ := ih hr
+          simp only [words, hf, List.filter_cons] at hc
+          split at hc
+          · rcases List.mem_cons.mp hc with rfl | hc'
+            · exact ⟨a :: c, List.mem_cons_self .., List.mem_cons_of_mem _ hxc⟩
+            · exact ⟨c, List.mem_cons_of_mem _ hc', hxc⟩
+          · exact ⟨c, List.mem_cons_of_mem _ hc, hxc⟩
+
+/-- a word contains no whitespace (under the most generous reading) -/
+theorem words_no_space {s : Str} : ∀ c ∈ words s, ∀ x ∈ c, isSpace x = false := by
+  induction s with
+  | nil => intro c hc; simp [words, fields] at hc
+  | cons a r ih =>
+    by_cases ha : isSpace a = true
+    · rw [words_cons_ws r ha]; exact ih
+    · have ha' : isSpace a = false := by simpa using ha
+      cases hf : fields isSpace r with
+      | nil => exact absurd hf (fields_ne_nil _ _)
+      | cons f fs =>
+        have hw : words (a :: r) = (a :: f) :: fs.filter (fun w => !w.isEmpty) := by
+          simp [words, fields, ha', hf, consHead]
+        have hr : words r = (if (!f.isEmpty) = true then f :: fs.filter (fun w => !w.isEmpty)
+            else fs.filter (fun w => !w.isEmpty)) := by
+          simp only [words, hf, List.filter_cons]
+        rw [hw]
+        intro c hc x hxc
+        rcases List.mem_cons.mp hc with rfl | hc'
+        · rcases List.mem_cons.mp hxc with rfl | hxf
+          · exact ha'
+          · cases f with
+            | nil => cases hxf
+            | cons y f' =>
+              exact ih (y :: f') (by rw [hr]; simp) x hxf
+        · refine ih c ?_ x hxc
+          rw [hr]; split
+          · exact List.mem_cons_of_mem _ hc'
+          · exact hc'
+
+/-- the words of a text are made of characters of the text -/
+theorem mem_of_mem_words : ∀ (t : Str), ∀ w ∈ words t, ∀ y ∈ w, y ∈ t := by
+  intro t
+  induction t with
+  | nil => intro w hw; simp [words, fields] at hw
+  | cons a r ih =>
+    intro w hw y hy
+    by_cases ha : isSpace a = true
+    · rw [words_cons_ws r ha] at hw; exact List.mem_cons_of_mem _ (ih w hw y hy)
+    · have ha' : isSpace a = false := by simpa using ha
+      cases hf : fields isSpace r with
+      | nil => exact absurd hf (fields_ne_nil _ _)
+      | cons f fs =>
+        have hr : words r = (if (!f.isEmpty) = true then f :: fs.filter (fun w => !w.isEmpty)
+            else fs.filter (fun w => !w.isEmpty)) := by
+          simp only [words, hf, List.filter_cons]
+        have hw' : w = a :: f ∨ w ∈ fs.filter (fun w => !w.isEmpty) := by
+          simpa [words, fields, ha', hf, consHead] using hw
+        rcases hw' with rfl | hw'
+        · rcases List.mem_cons.mp hy with rfl | hyf
+          · exact List.mem_cons_self ..
+          · cases f with
+            | nil => cases hyf
+            | cons z f' => exact List.mem_cons_of_mem _ (ih (z :: f') (by rw [hr]; simp) y hyf)
+        · refine List.mem_cons_of_mem _ (ih w ?_ y hy)
+          rw [hr]; split
+          · exact List.mem_cons_of_mem _ hw'
+          · exact hw'
+
+/-- a text with a word that contains a non-ASCII code point is ill formed under every reading -/
+theorem not_wf_of_nonascii {rd : Reading} {s c : Str} (hc : c ∈ words s) {x : Nat} (hx : x ∈ c) (h128 : 128 ≤ x) :
+    wf rd s = false := by
+  cases h : wf rd s
+  · rfl
+  · have := clause_ascii (((wf_iff rd s).mp h).2 c hc) x hx
+    omega
+
+/-! ## the parameterised (pre-e20037b) validator at the ASCII upper-casing is the model -/
+
+theorem flatMap_singleton (f : Nat → Nat) (l : Str) : l.flatMap (fun c => [f c]) = l.map f := by
+  induction l with
+  | nil => rfl
+  | cons a l ih => simp [List.flatMap_cons, ih]
+
+theorem capsetLoopWith_ascii (ps : List Str) :
+    capsetLoopWith (fun c => [toAsciiUpper c]) ps = capsetLoop ps := by
+  induction ps with
+  | nil => rfl
+  | cons p ps ih => simp only [capsetLoopWith, capsetLoop, flatMap_singleton, ih]
+
+theorem validateClauseWith_ascii (c : Str) :
+    validateClauseWith (fun c => [toAsciiUpper c]) c = validateClause c := by
+  simp only [validateClauseWith, validateClause, validateCapsetWith, validateCapset, capsetLoopWith_ascii]
+
+theorem clauseLoopWith_ascii (ps : List Str) :
+    clauseLoopWith (fun c => [toAsciiUpper c]) ps = clauseLoop ps := by
+  induction ps with
+  | nil => rfl
+  | cons p ps ih => simp only [clauseLoopWith, clauseLoop, validateClauseWith_ascii, ih]
+
+theorem validateCapsTextWith_ascii (s : Str) :
+    validateCapsTextWith (fun c => [toAsciiUpper c]) s = validateCapsText s := by
+  simp only [validateCapsTextWith, validateCapsText, clauseLoopWith_ascii]
 
 end RpmVerif.FileCaps
